@@ -507,15 +507,25 @@ func nonTrivial(c imgCase) (bool, []string) {
 // ---------------------------------------------------------------------------------------
 // Property.
 
+// sandboxBase: the per-case sandboxes are created on tmpfs when there is one (directory
+// operations on the scratch disk cost ~0.5 ms each here); every case removes its own sandbox.
+func sandboxBase() string {
+	if os.Getenv("C06_ON_DISK") == "" {
+		if st, err := os.Stat("/dev/shm"); err == nil && st.IsDir() {
+			return "/dev/shm"
+		}
+	}
+	if base := os.Getenv("VERIF_SCRATCH"); base != "" {
+		return base
+	}
+	return os.TempDir()
+}
+
 var jailActive = -1 // -1 unknown, 0 no, 1 yes
 
 func propImage(c imgCase) (o ev.Outcome, err error) {
 	col := ev.Get("C06")
-	base := os.Getenv("VERIF_SCRATCH")
-	if base == "" {
-		base = os.TempDir()
-	}
-	S, err := os.MkdirTemp(base, "c06i-")
+	S, err := os.MkdirTemp(sandboxBase(), "c06i-")
 	if err != nil {
 		return o, fmt.Errorf("harness: %w", err)
 	}
